@@ -62,7 +62,9 @@ class Power(base.BinaryExpression):
         point: Point
     ) -> float:
         if (not self._left._variable_names) and self._left._evaluate(point) == 1:
-            # If we find something like `Constant(1) ** Whatever`, we can short-circuit.
+            # If we find something like `Constant(1) ** Whatever`, we can short-circuit,
+            # but the exponent must still be defined at the point.
+            self._evaluate(point)
             return 0
         else:
             left_value = self._left._evaluate(point)
@@ -93,8 +95,9 @@ class Power(base.BinaryExpression):
         point: Point
     ) -> None:
         if (not self._left._variable_names) and self._left._evaluate(point) == 1:
-            # If we find something like `Constant(1) ** Whatever`, we can short-circuit.
-            pass
+            # If we find something like `Constant(1) ** Whatever`, we can short-circuit,
+            # but the exponent must still be defined at the point.
+            self._evaluate(point)
         else:
             left_value = self._left._evaluate(point)
             right_value = self._right._evaluate(point)
